@@ -138,20 +138,15 @@ def run(ctx, rng):
     vlib.tlc_mc(ctx, "LazyPipe", "LazyPipe_design.cfg", label="LazyPipe design: 3 callers, limits {1,2}x{1,2}, dial failure",
                 cfg_text=None if T else open(vlib.VERIF + "/spec/LazyPipe_design.cfg").read().replace("MaxCalls = 2", "MaxCalls = 1"),
                 timeout=900)
-    nv = vlib.run_tlc(ctx, "LazyPipe", "LazyPipe_dev_d5.cfg", expect_violation=True, workers=4)
-    if nv["violated"] != "NoRefusalIfEqual":
-        raise vlib.Infra("non-vacuity run LazyPipe_dev_d5.cfg: expected NoRefusalIfEqual, got %r" % nv["violated"])
-    ctx.cov["non_vacuity"].append("NoRefusalIfEqual fails under LazyPipe_dev_d5.cfg")
-    nv = vlib.run_tlc(ctx, "LazyPipe", "LazyPipe_dev_wg.cfg", expect_violation=True, workers=4)
-    if nv["violated"] != "NoRefusalIfEqual":
-        raise vlib.Infra("non-vacuity run LazyPipe_dev_wg.cfg: expected NoRefusalIfEqual, got %r" % nv["violated"])
-    ctx.cov["non_vacuity"].append("NoRefusalIfEqual fails under LazyPipe_dev_wg.cfg (wg.Done before the re-reservation)")
+    import pipeconn_common
+    ctx.cov["non_vacuity"] += pipeconn_common.nonvac_runs(ctx, "LazyPipe", [("LazyPipe_dev_d5.cfg", "NoRefusalIfEqual"),
+                                                                        ("LazyPipe_dev_wg.cfg", "NoRefusalIfEqual")])
     ctx.assumptions += [
         "pipeline part: a new connection is dialed only when no existing one can take the query (DESIGN C09 binding ii); "
         "which existing connection takes it is free; retries after a failure on a shared connection are allowed up to 2",
     ]
     scripts = []
-    reps = 12 if T else 4
+    reps = 12 if T else 2
     for k in range(reps):
         for q, l in ((1, 1), (2, 2), (4, 4), (2, 4), (3, 2)):
             scripts.append(burst("burst.q%d.l%d.%d" % (q, l, k), q, l, extra=k % 3, dgram=(k % 2 == 1)))
@@ -159,10 +154,11 @@ def run(ctx, rng):
         for q in (1, 2, 3):
             scripts.append(overtake("overtake.q%d.%d" % (q, k), q, dgram=(k % 2 == 1)))
     scripts = [s for s in scripts if s["l"] <= 8]  # the trace cfg has 12 callers
-    for i in range(300 if T else 40):
+    for i in range(300 if T else 12):
         # (5 callers with queue limit 1 would make trace validation enumerate 5! caller->connection assignments)
-        ncall = rng.choice([2, 3, 4, 4])
-        scripts.append({"name": "rnd%d" % i, "q": rng.choice([1, 2, 3]), "l": rng.choice([1, 2, 3, 4]), "dgram": i % 2 == 1,
+        ncall = rng.choice([2, 3, 4, 4]) if T else rng.choice([2, 3, 3, 4])
+        q = rng.choice([1, 2, 3]) if (T or ncall < 4) else rng.choice([2, 3])   # quick: keep trace validation cheap
+        scripts.append({"name": "rnd%d" % i, "q": q, "l": rng.choice([1, 2, 3, 4]), "dgram": i % 2 == 1,
                         "steps": [], "random": {"callers": ncall, "calls": rng.choice([1, 2]) if ncall < 4 else 1,
                                                 "p_dialfail": 0.15, "seed": rng.randrange(1, 2 ** 31)}})
     recs = run_scripts(ctx, scripts)
